@@ -2888,11 +2888,21 @@ emit_member_table(arg_t *arg, asn1p_expr_t *expr, asn1c_ioc_table_and_objset_t *
 	OUT("},\n");
 	INDENT(-1);
 
-	if(!expr->constraints || (arg->flags & A1C_NO_CONSTRAINTS))
+	if(!expr->constraints)
 		return 0;
 
 	save_target = arg->target->target;
 	REDIR(OT_CODE);
+
+	if(arg->flags & A1C_NO_CONSTRAINTS) {
+		/* No checking code, but the codecs still refer to the tables */
+		if(emit_member_OER_constraints(arg, expr, "memb"))
+			return -1;
+		if(emit_member_PER_constraints(arg, expr, "memb"))
+			return -1;
+		REDIR(save_target);
+		return 0;
+	}
 
 	if(expr->_anonymous_type && !strcmp(expr->Identifier, "Member"))
 		p = asn1c_type_name(arg, expr, TNF_SAFE);
